@@ -147,7 +147,7 @@ def build_lib(variant):
         return lib
 
 
-ENGINE_SOURCES = ["refset.c", "canon.c", "wf.c", "hwmc.c", "univ.c", "battery.c"]
+ENGINE_SOURCES = ["refset.c", "canon.c", "wf.c", "hwmc.c", "univ.c", "ops.c", "battery.c"]
 
 
 def build_engine(variant):
